@@ -27,9 +27,9 @@ type alphabet struct {
 }
 
 var alphabets = []alphabet{
-	{"ab", []byte{'a', 'b', '\n'}, 6, 8},                // the alphabet of DESIGN.md §4
-	{"ws", []byte{'a', ' ', '\r', '\n'}, 5, 7},          // blank-only lines and CR are ordinary line content
-	{"utf8", []byte{0xC3, 0xA9, '\n'}, 5, 7},            // "é" = C3 A9: a chunk boundary inside a multi-byte rune
+	{"ab", []byte{'a', 'b', '\n'}, 6, 8},       // the alphabet of DESIGN.md §4
+	{"ws", []byte{'a', ' ', '\r', '\n'}, 5, 7}, // blank-only lines and CR are ordinary line content
+	{"utf8", []byte{0xC3, 0xA9, '\n'}, 5, 7},   // "é" = C3 A9: a chunk boundary inside a multi-byte rune
 }
 
 // "output" family (both adapters + the plain string logger combined as Output() does): scripts over {a,b,\n},
@@ -51,9 +51,9 @@ type seamCase struct {
 	ScriptHex string      `json:"script_hex,omitempty"`
 	Script    string      `json:"script,omitempty"` // Go-quoted, informative
 	Gen       *script.Gen `json:"generated,omitempty"`
-	Cuts      []int       `json:"cuts"`    // byte offsets at which a new chunk (Write call) starts
+	Cuts      []int       `json:"cuts"`           // byte offsets at which a new chunk (Write call) starts
 	Step      int         `json:"step,omitempty"` // when > 0: the cuts are all the multiples of Step instead
-	Adapter   string      `json:"adapter"` // stdout | stderr | both
+	Adapter   string      `json:"adapter"`        // stdout | stderr | both
 	Assign    uint64      `json:"assign,omitempty"`
 }
 
@@ -127,6 +127,24 @@ func endOfStream(w io.Writer) {
 	}
 }
 
+// copyBuffer hands every chunk to the adapter the way io.Copy does (exec.Cmd copies the child's pipe with it): in
+// ONE buffer that is reused for the next read. io.Writer forbids retaining the slice passed to Write; the buffer is
+// overwritten after every call so that an adapter that keeps a reference to it is exposed.
+type copyBuffer struct{ b []byte }
+
+func (cb *copyBuffer) write(w io.Writer, chunk []byte) (int, error) {
+	if cap(cb.b) < len(chunk) {
+		cb.b = make([]byte, len(chunk), 2*len(chunk)+8)
+	}
+	cb.b = cb.b[:len(chunk)]
+	copy(cb.b, chunk)
+	n, err := w.Write(cb.b)
+	for i := range cb.b {
+		cb.b[i] = '#'
+	}
+	return n, err
+}
+
 // feed writes the chunks to one adapter built on a fresh recorder and returns what the recorder received.
 func feed(stderr bool, chunks [][]byte) (events []event, writeProblem string) {
 	rec := newRecorder()
@@ -136,8 +154,9 @@ func feed(stderr bool, chunks [][]byte) (events []event, writeProblem string) {
 	} else {
 		w = subprocess.VerifNewOutStreamer(context.Background(), rec)
 	}
+	var buf copyBuffer
 	for _, c := range chunks {
-		n, err := w.Write(c)
+		n, err := buf.write(w, c)
 		if err != nil || n != len(c) {
 			writeProblem = fmt.Sprintf("Write(%d bytes) = %d, %v", len(c), n, err)
 			break
@@ -219,6 +238,7 @@ func evalOutput(c seamCase, s []byte) []viol {
 	}
 	wo, we := subprocess.VerifCommandWriters(context.Background(), combined, "/bin/true")
 	var so, se []byte
+	var buf copyBuffer
 	for j, ch := range chunksOf(s, c.cuts(len(s))) {
 		w := wo
 		if c.Assign&(1<<uint(j)) != 0 {
@@ -228,7 +248,7 @@ func evalOutput(c seamCase, s []byte) []viol {
 		} else {
 			so = append(so, ch...)
 		}
-		n, err := w.Write(ch)
+		n, err := buf.write(w, ch)
 		if err != nil || n != len(ch) {
 			return []viol{{Sig: "seam:output:both:write-error", Replay: replayCase{Half: "seam", Seam: &c, Detail: fmt.Sprintf("Write(%d bytes) = %d, %v", len(ch), n, err)}}}
 		}
